@@ -204,7 +204,7 @@ async fn main() {
         };
         // cache into <sandbox>/c/meta and <sandbox>/c/tgt; anything else appearing in the sandbox is an escape
         let subset_names: Option<Vec<String>> = subset.as_ref().map(|s| s.iter().map(|i| names[*i].clone()).collect());
-        let run_cli = thorough || i % 3 == 0;
+        let run_cli = if thorough { i % 5 == 0 } else { i % 3 == 0 };
         let mut imps: Vec<Value> = Vec::new();
         let mut lib_ok = false;
         for leg in 0..2 {
